@@ -100,7 +100,7 @@ func exprText(fset *token.FileSet, e ast.Expr) string {
 }
 
 func translateFunc(repo string, fs FuncSpec) (string, error) {
-	ck := checkDir(repo, fs.Dir)
+	ck := checkDir(repo, fs.Dir, fs.OnlyFiles)
 	if ck.err != nil {
 		return "", ck.err
 	}
